@@ -55,7 +55,6 @@ OPS = ["sim", "sim_default", "backward", "init", "insert_remove", "resim"]
 @st.composite
 def _case(draw, cfg):
     spec = draw(gen.model_spec(cfg))
-    gen.chain_components(spec)  # placement of multi-task components is a known finding of C13 (D-PLC1)
     n = len(spec["tasks"])
     nc = len(spec["comps"])
 
